@@ -116,7 +116,7 @@ def main(tier, seed):
              "distinct converted bit patterns",
         assumptions=["values on a finite lattice 0, 1e-12..1e6"],
         technique="bounded exhaustive enumeration against an exact rational reference model")
-    comps = list(U.BUILTIN_COMPONENTS) + [1.0, 500.0]
+    comps = list(U.BUILTIN_COMPONENTS) + [1.0, 500.0, 46.0684, 18.01528, 2.01588]
     vals = [0.0] + core.lat([1e-12, 1e-6, 1.0, 1e6], seed)
     paths = [(a, b, c) for a in UNITS for b in UNITS for c in UNITS]
     core.run_space(rep, core.Space("unit_paths", {"path": paths, "component": comps, "value": vals}), judge)
